@@ -23,7 +23,7 @@ def gen_case(rng):
                 'late': rng.random() < 0.6, 'ticks': rng.choice([2, 3]), 'depth': rng.choice([1, 1, 2])}
     return {'kind': 'emitleak', 'order': rng.choice(['over-first', 'plain-first']),
             'late': rng.random() < 0.5, 'ticks': rng.choice([2, 3]),
-            'via': rng.choice(['_schema', '_schema', 'merge', 'merge2', 'reuse'])}
+            'via': rng.choice(['_schema', '_schema', 'merge', 'merge2', 'reuse', 'revise', 'revise_param'])}
 
 
 def corpus():
@@ -34,6 +34,10 @@ def corpus():
             {'kind': 'emitleak', 'order': 'over-first', 'late': False, 'ticks': 2, 'via': 'merge2'},
             # the composite was used once (a store generated from it) before the flags were merged in
             {'kind': 'emitleak', 'order': 'over-first', 'late': False, 'ticks': 2, 'via': 'reuse'},
+            # a later assignment of the flags revises an earlier one (given by an earlier merge, or by the process's
+            # own `_schema` parameter): the later one holds
+            {'kind': 'emitleak', 'order': 'over-first', 'late': False, 'ticks': 2, 'via': 'revise'},
+            {'kind': 'emitleak', 'order': 'plain-first', 'late': False, 'ticks': 2, 'via': 'revise_param'},
             # a variable without any schema (created by `_add` into a store that has no glob schema) is not flagged
             {'kind': 'emitleak', 'mode': 'schemaless', 'at': 1, 'ticks': 3, 'state': 'hello'},
             # a flagged variable at the top of the hierarchy is called `time`: every row is still keyed by the time of
@@ -196,7 +200,9 @@ def run_impl(case):
     try:
         flags = {'v': {'level': {'_emit': True}, 'raw': {'_emit': False}}}
         via = case.get('via', '_schema')
-        over = Cell({'_schema': flags}) if via == '_schema' else Cell()
+        earlier = {'v': {'level': {'_emit': False}, 'raw': {'_emit': True}}}
+        over = Cell({'_schema': flags}) if via == '_schema' else (
+            Cell({'_schema': earlier}) if via == 'revise_param' else Cell())
         plain = Cell()
         cells = {'a': {'cell': over}, 'b': {'cell': plain}} if case['order'] == 'over-first' else \
             {'b': {'cell': plain}, 'a': {'cell': over}}
@@ -213,6 +219,8 @@ def run_impl(case):
             comp = Composite({'processes': processes, 'topology': topology})
             if via == 'reuse':
                 comp.generate_store()         # a first use of the process objects, before the override exists
+            if via == 'revise':
+                comp.merge(schema_override={'cells': {'a': {'cell': earlier}}})
             comp.merge(schema_override={'cells': {'a': {'cell': flags}}})
             if via == 'merge2':
                 comp.merge(state={'marker': {'m': 1}})        # a later merge that carries no override
